@@ -2735,12 +2735,12 @@ _PURE_BUILTINS = _WRAPPERS | {"len", "range", "enumerate", "zip", "str", "map", 
 _STR_METHODS = _NAME_METHODS | {"join", "strip", "lstrip", "rstrip", "lower", "upper", "format", "replace", "splitlines", "isidentifier", "keys", "values", "items", "get", "copy", "union", "difference", "intersection", "append", "add", "extend", "update", "insert", "pop"}
 
 
-def provenance(m: SearchModel, e: ast.AST) -> set[str]:
+def provenance(m: SearchModel, e: ast.AST, stop: set[str] | None = None) -> set[str]:
     """Leaves the value of a node-collection expression is computed from, following the local definitions, mutations and loop
     bindings of the names it mentions: "filter:<p>" (identifier / parent flag of a module-filter parameter), "const",
     "subtree" (a get_all_submodules_of call), "graph" (any use of the graph), "param:<x>" (another parameter as a whole),
     "call:<f>" (a call the view could not look into), "derived" (a string operation - slicing, splitting, joining, formatting -
-    is involved).  A set whose leaves are only filters, constants and string operations is computed from *names alone*."""
+    is involved), "known:<s>" (one of the sets named in `stop`, not followed further).  A set whose leaves are only filters, constants and string operations is computed from *names alone*."""
     fn = m.fi.node
     params = set(m.fi.param_names)
     out: set[str] = set()
@@ -2777,7 +2777,9 @@ def provenance(m: SearchModel, e: ast.AST) -> set[str]:
             out.add(f"filter:{x.value.id}")
             return
         if isinstance(x, ast.Name):
-            if x.id == m.graph:
+            if stop and x.id in stop:
+                out.add(f"known:{x.id}")  # a set the caller knows: what it is made of is not this expression's business
+            elif x.id == m.graph:
                 out.add("graph")
             elif x.id in params:
                 out.add(f"filter:{x.id}" if x.id in m.filter_params or x.id in m.collection_params else f"param:{x.id}")
